@@ -108,6 +108,7 @@ class Spec:
         acts.append("ack:102:big")
         for v in IWS_VALUES:
             acts.append("iws:%d" % v)
+        acts.append("iwsbad:5")          # update_settings({INITIAL_WINDOW_SIZE: 5, MAX_FRAME_SIZE: 1}): refused as a whole
         if st.pending:
             acts.append("rxack")
         return acts
@@ -282,6 +283,20 @@ class Spec:
             st.unacked.pop(sid, None)
             st.reset.add(sid)
             st.resv.discard(sid)
+        elif parts[0] == "iwsbad":
+            before = self._accessors(st)
+            o = h.api("update_settings", {wire.S_INITIAL_WINDOW_SIZE: int(parts[1]), wire.S_MAX_FRAME_SIZE: 1})
+            if o.kind != "raise":
+                bad("invalid-update-accepted", "update_settings with MAX_FRAME_SIZE=1 -> %s" % o.brief())
+                st.dead = True
+                return Step("iwsbad-accepted", viols, prune=True)
+            if o.raw:
+                bad("failed-call-emitted", "update_settings raised %s but emitted %s" % (o.exc_name, o.brief()), call="update_settings")
+            if self._accessors(st) != before:
+                bad("failed-call-changed-window", "update_settings raised %s but window accessors changed" % o.exc_name, call="update_settings",
+                    exc=o.exc_name)
+            # nothing was sent and nothing is pending: a value it smuggled in shows at the next acknowledgement
+            out = "iwsbad-raise"
         elif parts[0] == "iws":
             v = int(parts[1])
             o = h.api("update_settings", {wire.S_INITIAL_WINDOW_SIZE: v})
